@@ -29,7 +29,7 @@ FUNCS = ['IntegerHelper.signed_to_c2', 'IntegerHelper.c2_to_signed', 'IntegerHel
 HEAP_FUNCS = ['FPNum.increase_exponent', 'FPNum.increase_precision', 'FPNum.set_semp', 'FPNum.adjust_semp', 'FPNum.__init__/4',
               'FPNum.__init__/0', 'FPNum.from_ieee754_hp', 'FPNum.from_ieee754_sp', 'FPNum.from_ieee754_dp',
               'FPNum.__init__/2hp', 'FPNum.__init__/2sp', 'FPNum.__init__/2dp', 'FPNum.copy', 'FPNum.add', 'FPNum.sub', 'FPNum.mul', 'FPNum.neg', 'FPNum.compare',
-              'FixedPoint.intToFixedPoint', 'FixedPoint.__init__', 'FixedPoint.add', 'FixedPoint.sub', 'FixedPoint.mult']
+              'FixedPoint.intToFixedPoint', 'FixedPoint.__init__', 'FixedPoint.add', 'FixedPoint.sub', 'FixedPoint.mult', 'FixedPoint.fromRawValue']
 
 
 def heap_item(qual, timeout_s=30, **kw):
